@@ -183,6 +183,18 @@ CHECKS = {
              "-push-basic with uninterpreted sorts, max_sk_sz = 0 instances",
         technique="exhaustive enumeration of the (projected) model set of the emitted transition-system encoding, every "
                   "model replayed through the implementation"),
+    "C07": dict(
+        level="model_checking", engine="E3+E5+E6", ref="DESIGN.md section 4 C07",
+        text="for small instances x {gas,size,length} x {grouped,direct} soft constraints x pruning/bounds option sets "
+             "(22 in the quick tier, all 64 in the thorough tier): all projected models with their soft penalty are "
+             "enumerated from the emitted text and decoded by the tool's reader; the true optimum within the bounds "
+             "comes from an explicit-state uniform-cost search over the reference stack machine with independent "
+             "weights; checked: realizable => satisfiable, a minimum-penalty model has minimum true cost, penalty minus "
+             "cost is constant over models, the optimum does not depend on the pruning set",
+        note="weights: bytes by libevmasm's rule, Berlin static gas (the tool's figure for access-priced opcodes), "
+             "instruction count; known finding: -size prices instructions at min(bytes,5)",
+        technique="exhaustive enumeration of the model set of the emitted encoding against an explicit-state "
+                  "shortest-path search of a reference transition system"),
 }
 
 NOT_YET = "check not built yet in this session (planned in DESIGN.md section 4); nothing is claimed for it"
